@@ -215,6 +215,17 @@ class ModelReplay:
                 guard += 1
             self.expect(p, "popen", cmd)
             self.step(p)
+        elif name == "NodeNoTry":
+            pass                      # --no-distributed-submitter: nothing visible happens between the last poll and the exit
+        elif name == "NodeEnd" and not self.scn.get("dist", True):
+            guard = 0
+            while p.alive and guard < 6:
+                if parked(p)[0] != "sleep":
+                    raise Divergence(f"runner {p.pid} (no distributed submitter) parked at {parked(p)} before its exit")
+                self.step(p)
+                guard += 1
+            if p.alive:
+                raise Divergence(f"runner {p.pid} did not end: {parked(p)}")
         elif name == "NodeEnd":
             self.expect(p, "wait")
             self.step(p)
